@@ -22,7 +22,8 @@ func init() {
 
 var (
 	c30Mods = []string{"edit a", "edit d-side file", "chmod +x a", "untracked file at every path the target adds", "staged edit of a",
-		"staged new file at a path the target adds", "untracked wrong-type entry where the target adds", "delete a"}
+		"staged new file at a path the target adds", "untracked wrong-type entry where the target adds", "delete a",
+		"a removed from the index only, untracked file left at a", "d-side file removed from the index only, untracked file left there"}
 	c30Ops = []string{"Checkout(branch)", "Checkout(hash)", "Reset(Merge)", "Reset(Keep)"}
 )
 
@@ -153,6 +154,20 @@ func (e *c30Env) setup(v []int, root string) map[string]string {
 			return nil
 		}
 		post = append(post, func() { hClearPath(root, "a") })
+	case 8: // `git rm --cached a`, then a file of other content at the same name: untracked, at a path HEAD and possibly the target track
+		if k, ok := cur["a"]; !ok || k == 'l' {
+			return nil
+		}
+		delete(ents, "a")
+		post = append(post, func() { hPut(root, "a", '3', hOldTime) })
+		local["a"] = "F:three\n"
+	case 9:
+		if dside == "" {
+			return nil
+		}
+		delete(ents, dside)
+		post = append(post, func() { hPut(root, dside, '3', hOldTime) })
+		local[dside] = "F:three\n"
 	}
 	var list []hIdxEntry
 	for _, en := range ents {
@@ -282,7 +297,7 @@ func runC30(c *fw.Ctx) {
 	c.Bound("local_modifications", c30Mods)
 	c.Bound("ops", c30Ops)
 	c.Bound("vectors", n)
-	c.SetRule("all ordered pairs of the 20 commits of C25 (quick: 12 of them, without the second contents) (a: absent/2 contents/exec/symlink, d: absent/file/dir x2) x 8 local modifications x {Checkout branch, Checkout hash, Reset Merge, Reset Keep} (inapplicable combinations skipped and not counted); the same op runs through go-git on copy A and real git on copy B; a case fails when local content (bytes+exec bit at its path) is gone from A although git either refused or kept it; cases where git itself discards the content (e.g. staged edits under reset --merge) are only counted; non-trivial = every executed case; distinct counts (modification, op, go-git refused?, git refused?, lost-by-both)")
+	c.SetRule("all ordered pairs of the 20 commits of C25 (quick: 12 of them, without the second contents) (a: absent/2 contents/exec/symlink, d: absent/file/dir x2) x 10 local modifications x {Checkout branch, Checkout hash, Reset Merge, Reset Keep} (inapplicable combinations skipped and not counted); the same op runs through go-git on copy A and real git on copy B; a case fails when local content (bytes+exec bit at its path) is gone from A although git either refused or kept it; cases where git itself discards the content (e.g. staged edits under reset --merge) are only counted; non-trivial = every executed case; distinct counts (modification, op, go-git refused?, git refused?, lost-by-both)")
 	c.Assume("git 2.39.5 checkout / reset --merge / reset --keep verdicts are the reference for what may be discarded; a deletion carries no content and is not judged; go-git refusing more often than git is allowed by the statement")
 
 	if v := hDevVec(); v != nil {
@@ -310,7 +325,8 @@ func runC30(c *fw.Ctx) {
 			// class = (op family, kind of local change, what happened to it); paths are not part of the key
 			opc := []string{"Checkout", "Checkout", "Reset(Merge)", "Reset(Keep)"}[v[5]]
 			modc := []string{"unstaged edit of a tracked file", "unstaged edit of a tracked file", "chmod +x of a tracked file", "untracked file at a path the target adds",
-				"staged edit of a tracked file", "staged new file at a path the target adds", "untracked wrong-type entry where the target adds", "deleted tracked file"}[v[4]]
+				"staged edit of a tracked file", "staged new file at a path the target adds", "untracked wrong-type entry where the target adds", "deleted tracked file",
+				"untracked file at a path removed from the index only", "untracked file at a path removed from the index only"}[v[4]]
 			for tok := range hSigTokens(sig) {
 				fails.addHint(i, v, sig, fmt.Sprintf("%s with %s: %s", opc, modc, tok))
 			}
